@@ -300,8 +300,13 @@ def _slice_info(sl):
     except sym.NotPoly:
         return lo, None
     atoms = p.atoms()
-    if len(atoms) == 1 and p.without(next(iter(atoms))).is_zero() and p.coeff(next(iter(atoms))) == sym.Poly.const(1):
-        return lo, ("sym", next(iter(atoms)))
+    if len(atoms) == 1 and p.coeff(next(iter(atoms))) == sym.Poly.const(1) and p.without(next(iter(atoms))).is_const():
+        a = next(iter(atoms))
+        k = p.without(a).const_value()
+        if k == 0:
+            return lo, ("sym", a)
+        if k.denominator == 1:
+            return lo, ("symoff", a, int(k))
     return lo, None
 
 
@@ -1094,8 +1099,77 @@ def run_obj(ctx, repo):
 
 
 # =========================================================================== off / tet  (rows tagged with their length)
+TAG_DOMAIN = range(2, 9)      # finite tag domain over which importer branch tests are evaluated
+
+
+class _TagSubst(ast.NodeTransformer):
+    def __init__(self, key):
+        self.key = key
+
+    def generic_visit(self, node):
+        if isinstance(node, ast.expr) and au.norm(node) == self.key:
+            return ast.Name(id="__tag", ctx=ast.Load())
+        return super().generic_visit(node)
+
+
+def tag_expression(rblocks):
+    """The expression the importer branches on (left operand shared by the comparisons guarding the element
+    appends), e.g. `nvi`."""
+    count = {}
+    for rb in rblocks:
+        if rb.kind == "vertices":
+            continue
+        for test, pol in au.guards(rb.node):
+            for c in au.walk(test):
+                if isinstance(c, ast.Compare):
+                    for side in [c.left] + list(c.comparators):
+                        if not isinstance(side, (ast.Constant, ast.Tuple, ast.List, ast.Set)):
+                            count.setdefault(au.norm(side), [0, side])[0] += 1
+    if not count:
+        return None
+    return max(count.values(), key=lambda v: v[0])[1]
+
+
+def branch_reads_tag(rb, tag_e, t):
+    """True / False / None (a guard on the tag could not be evaluated) : does the importer block run for tag t?"""
+    key = au.norm(tag_e)
+    for test, pol in au.guards(rb.node):
+        mentions = any(au.norm(x) == key for x in au.walk(test) if isinstance(x, ast.expr))
+        if not mentions:
+            continue
+        v = cc.eval_test(_TagSubst(key).visit(cc.clean(test)), {"__tag": t})
+        if v is None:
+            return None
+        if bool(v) != pol:
+            return False
+    return True
+
+
+def arity_for_tag(rb, tag_e, t):
+    a = rb.spec.arity
+    if a is None:
+        return None
+    if a[0] == "const":
+        return a[1]
+    if a[0] == "rest":
+        return t
+    if a[0] == "symoff":
+        base = arity_for_tag(RBlock(spec=type("S", (), {"arity": ("sym", a[1])})(), b=rb.b, node=rb.node), tag_e, t)
+        return base + a[2] if isinstance(base, int) else ("sym", a[1])
+    if a[0] == "sym":
+        if isinstance(tag_e, ast.Name) and tag_e.id == a[1]:
+            return t
+        d = rb.b.reaching(a[1], rb.node)
+        if d is not None and au.norm(d) == au.norm(tag_e):
+            return t
+    return ("sym", a[1])
+
+
 def len_tagged_rules(ctx, fmt, mod, wfn, rfn, wblocks, rblocks, domain):
+    """Rows written as `len(row) v0 v1 ..`: for every tag t the exporter can write, which importer branch runs
+    (its test evaluated for t over a finite tag domain), and does it store the same kind with t vertices."""
     n = 0
+    tag_e = tag_expression(rblocks)
     for wb in wblocks:
         if not isinstance(wb.tag, tuple):
             continue
@@ -1103,34 +1177,44 @@ def len_tagged_rules(ctx, fmt, mod, wfn, rfn, wblocks, rblocks, domain):
         ctx.check(wb.fields == "all" and not wb.unknown, "C04-E1", site,
                   f"{fmt}: a {wb.kind} row tagged with its length does not list all its vertices", "",
                   note=f"{fmt}: {wb.kind} row = len, then every vertex")
-        arities = [wb.guard_n] if wb.guard_n is not None else domain[wb.kind]
+        arities = [wb.guard_n] if wb.guard_n is not None else [t for t in TAG_DOMAIN if t >= domain[wb.kind]]
+        dropped = []
         for a in arities:
             n += 1
-            label = f"{a}" if a != arities[-1] or wb.guard_n is not None or len(arities) == 1 else f"{a} or more"
-            cands = [rb for rb in rblocks if rb.kind != "vertices" and rblock_matches(rb, a)]
+            cands, unknown = [], False
+            for rb in rblocks:
+                if rb.kind == "vertices":
+                    continue
+                r = True if tag_e is None else branch_reads_tag(rb, tag_e, a)
+                if r is None:
+                    unknown = True
+                elif r:
+                    cands.append(rb)
+            if unknown:
+                ctx.fail("C04-E1", ctx.site(mod, rfn), f"{fmt}: importer branch test on the row tag not understood",
+                         f"cannot evaluate the test for tag {a}")
+                break
             if not cands:
-                ctx.fail("C04-E1", site,
-                         f"{fmt}: {wb.kind} with {label} vertices are written (tag = len) but no importer branch reads that tag",
-                         f"a {wb.kind[:-1]} with {label} vertices is silently dropped on reload")
+                dropped.append(a)
                 continue
             rb = cands[0]
             rs = ctx.site(mod, rb.fn, rb.node)
-            ra = reader_arity(rb)
-            if isinstance(ra, tuple):        # symbolic arity equal to the tag variable
-                ra = a if any(k[0] is not None and isinstance(k[0], ast.Name) and k[0].id == ra[1] for k in rb.keys) or \
-                    not rb.keys else ra
-            if ra == "rest":
-                ra = a
+            ra = arity_for_tag(rb, tag_e, a) if tag_e is not None else (a if rb.spec.arity == ("rest",) else reader_arity(rb))
             ok_kind = rb.kind == wb.kind
             ctx.check(ok_kind, "C04-E1", rs,
-                      f"{fmt}: a {wb.kind[:-1]} with {label} vertices is written with tag {a}, which the importer reads as a {rb.kind[:-1]}",
-                      f"saved {wb.kind} with {label} vertices come back as {rb.kind}: the loaded object is not the saved one "
+                      f"{fmt}: a {wb.kind[:-1]} with {a} vertices is written with tag {a}, which the importer reads as a {rb.kind[:-1]}",
+                      f"saved {wb.kind} with {a} vertices come back as {rb.kind}: the loaded object is not the saved one "
                       f"(and has the class its {rb.kind} imply)", note=f"{fmt}: tag {a} is a {wb.kind[:-1]} on both sides")
             if ok_kind:
                 ctx.check(ra == a and rb.spec.skip == wb.tag_fields, "C04-E1", rs,
                           f"{fmt}: a {wb.kind[:-1]} with {a} vertices is parsed with {ra} vertices after skipping {rb.spec.skip} token(s)",
                           f"the exporter writes {wb.tag_fields} length token then {a} indices",
                           note=f"{fmt}: tag {a}: {a} indices after {wb.tag_fields} tag token")
+        if dropped:
+            lab = ", ".join(map(str, dropped)) + (" (and more)" if dropped[-1] == TAG_DOMAIN[-1] else "")
+            ctx.fail("C04-E1", site,
+                     f"{fmt}: {wb.kind} with {lab} vertices are written (tag = len) but no importer branch reads those tags",
+                     f"a {wb.kind[:-1]} with that many vertices is silently dropped on reload")
     return n
 
 
@@ -1151,7 +1235,7 @@ def run_off(ctx, repo):
               f"off: first line written {magic_w[:1]} is not the header the importer requires {magic_r[:1]}",
               "the importer raises on a missing header", note="off: OFF magic line on both sides")
     tagged_rules(ctx, fmt, mod, wfn, rfn, wblocks, rblocks)
-    len_tagged_rules(ctx, fmt, mod, wfn, rfn, wblocks, rblocks, {"faces": [3, 4, 5], "cells": [4, 5]})
+    len_tagged_rules(ctx, fmt, mod, wfn, rfn, wblocks, rblocks, {"faces": 3, "cells": 4})
     h1_flat_header(ctx, fmt, mod, wfn, rfn, prov, b, wblocks)
     nb = b1_writer_offsets(ctx, fmt, mod, wfn, prov, b) + b1_reader_offsets(ctx, fmt, mod, rblocks)
     ctx.require_count("C04-B1 off index sites", nb, 2)
@@ -1173,7 +1257,7 @@ def run_tet(ctx, repo):
     ctx.require_count("C04-E1 tet written blocks", len(wblocks), 2)
     ctx.require_count("C04-E1 tet parsed blocks", len(rblocks), 2)
     tagged_rules(ctx, fmt, mod, wfn, rfn, wblocks, rblocks)
-    len_tagged_rules(ctx, fmt, mod, wfn, rfn, wblocks, rblocks, {"cells": [4, 8], "faces": [3, 4]})
+    len_tagged_rules(ctx, fmt, mod, wfn, rfn, wblocks, rblocks, {"cells": 4, "faces": 3})
     h1_flat_header(ctx, fmt, mod, wfn, rfn, prov, b, wblocks)
     # the count is the first token of its header line (the importer takes token 0)
     for kind, lf, c, tok in header_counts_writer(wfn, prov, b, wblocks):
@@ -1381,7 +1465,15 @@ def arity_tables(repo, rfn):
                                 loop_names.add(nm)
         main = sorted(loop_names) or sorted(names)
         extra = sorted(n_ for n_ in names if n_ not in main)
-        out[kind] = (main, default, node, table, extra)
+        # the container whose element count bounds the fill loop (`range(container_sizes[Chunk.Container.X] - 1)`)
+        cont = None
+        for a in au.calls(rfn):
+            if au.call_tail(a) == "append" and isinstance(a.func.value, ast.Name) and a.func.value.id == table:
+                for lp in [x for x in au.ancestors(a) if isinstance(x, ast.For)][:1]:
+                    for x in au.walk(lp.iter):
+                        if isinstance(x, ast.Subscript) and isinstance(x.slice, ast.Attribute):
+                            cont = cont or x.slice.attr
+        out[kind] = (main, default, node, table, extra, cont)
         continue
         out[kind] = (sorted(names), default, node, table)
     return out
@@ -1562,7 +1654,7 @@ def g1_import_stride(ctx, repo, iafn, role_field):
               "values are written element-major with `arity` values per element", note="geogram: import stride = arity")
 
 
-def geogram_chunks(ctx, repo, wfn, prov, b, special, start, tfold, fold_container):
+def geogram_chunks(ctx, repo, wfn, prov, b, special, start, tfold, fold_container, ptr_names=None):
     """Literal connectivity chunks of the exporter against the importer branches; returns the chunk names written and
     the [ATTS] table."""
     mod = GEO
@@ -1573,7 +1665,8 @@ def geogram_chunks(ctx, repo, wfn, prov, b, special, start, tfold, fold_containe
             m = fold_container(line_literal(lines[1]))
             cnt = lines[2][0][1] if lines[2] and lines[2][0][0] == "leaf" else None
             atts[m.name if m else line_literal(lines[1])] = (c, cnt)
-    names_written = set()
+    names_written = {}
+    ptr_names = ptr_names or {}
     n_chunks = 0
     for c, tag, lines in chunks:
         if tag != "[ATTR]":
@@ -1586,11 +1679,16 @@ def geogram_chunks(ctx, repo, wfn, prov, b, special, start, tfold, fold_containe
                      f"header lines: {lits}")
             continue
         cont_w, name, typ, nbytes, arity = lits[1], _unquote(lits[2]), lits[3], lits[4], lits[5]
-        names_written.add(name)
+        names_written[name] = (c, lines)
         m = fold_container(cont_w)
         match = [sp for sp in special if m is not None and sp[0] == m.name and sp[1] == name]
+        if not match and name in ptr_names and m is not None and m.name == ptr_names[name][1]:
+            # size-table chunk: the importer finds it by name and reads it as a flat list of integers (arity 1)
+            match = [(m.name, name, None, (None, 1), [])]
         if not match:
             near = [sp for sp in special if sp[1].split("::")[-1] == name.split("::")[-1]]
+            if name in ptr_names:
+                near = [(ptr_names[name][1], name)]
             ctx.fail("C04-E1", site,
                      f"geogram: chunk {name} written under {_unquote(cont_w)} matches no connectivity branch of the importer",
                      f"the importer looks for "
@@ -1697,12 +1795,86 @@ def geogram_counts(ctx, repo, wfn, rfn, b, mesh, special, member_field, atts):
                   f"the importer reads exactly that many {fld}", note=f"geogram: [ATTS] {X} = len(mesh.{fld})")
 
 
-def geogram_arity_tables(ctx, repo, wfn, rfn, wblocks, names_written):
+def _eval_size_condition(test, prov, kind, sizes):
+    """Value of an exporter condition such as `any(len(f) != 3 for f in mesh.faces)` when the rows of mesh.<kind> have
+    the given sizes; None when the expression is not about those sizes (or not understood)."""
+    if isinstance(test, ast.UnaryOp) and isinstance(test.op, ast.Not):
+        v = _eval_size_condition(test.operand, prov, kind, sizes)
+        return None if v is None else (not v)
+    if isinstance(test, ast.BoolOp):
+        vals = [_eval_size_condition(v, prov, kind, sizes) for v in test.values]
+        if isinstance(test.op, ast.And):
+            known = [v for v in vals if v is not None]        # unrelated conjuncts (hasattr, not empty) are taken as true
+            return all(known) if known else None
+        return None if any(v is None for v in vals) else any(vals)
+    if isinstance(test, ast.Call) and isinstance(test.func, ast.Name) and test.func.id in ("any", "all") and len(test.args) == 1 \
+            and isinstance(test.args[0], (ast.GeneratorExp, ast.ListComp)) and len(test.args[0].generators) == 1:
+        g = test.args[0].generators[0]
+        if prov.container_kind(g.iter) != kind or not isinstance(g.target, ast.Name):
+            return None
+        key = au.norm(ast.Call(func=ast.Name(id="len", ctx=ast.Load()), args=[ast.Name(id=g.target.id, ctx=ast.Load())], keywords=[]))
+        vals = []
+        for n_ in sizes:
+            keep = True
+            for cond in g.ifs:
+                kv = cc.eval_test(_TagSubst(key).visit(cc.clean(cond)), {"__tag": n_})
+                if kv is None:
+                    return None
+                keep = keep and bool(kv)
+            if not keep:
+                continue
+            v = cc.eval_test(_TagSubst(key).visit(cc.clean(test.args[0].elt)), {"__tag": n_})
+            if v is None:
+                return None
+            vals.append(bool(v))
+        return any(vals) if test.func.id == "any" else all(vals)
+    return None
+
+
+def _ptr_payload_ok(lp, b, prov, kind):
+    """`p = 0; for row in mesh.K: write(p); p += len(row)`: each element's first-corner index."""
+    if lp is None or prov.container_kind(cc.strip_enumerate(lp.iter)[0]) != kind:
+        return "the payload loop does not run over the elements"
+    inner, en = cc.strip_enumerate(lp.iter)
+    row = lp.target.elts[1] if en and isinstance(lp.target, ast.Tuple) else lp.target
+    if not isinstance(row, ast.Name):
+        return "row variable not found"
+    writes = [(i, st) for i, st in enumerate(lp.body) if isinstance(st, ast.Expr) and isinstance(st.value, ast.Call)
+              and au.call_tail(st.value) == "write"]
+    if len(writes) != 1 or len([c for c in au.calls(lp) if au.call_tail(c) == "write"]) != 1:
+        return "not exactly one unconditional write per element"
+    wi, wst = writes[0]
+    leaves = [p_[1] for p_ in cc.flatten(wst.value.args[0], b, wst.value) if p_[0] == "leaf"]
+    if len(leaves) != 1 or not isinstance(leaves[0].expr, ast.Name):
+        return "the value written is not the running offset variable"
+    P = leaves[0].expr.id
+    init = b.reaching(P, lp)
+    if not (isinstance(init, ast.Constant) and init.value == 0 and not isinstance(init.value, bool)):
+        return f"the running offset does not start at 0"
+    incs = [(i, st) for i, st in enumerate(lp.body) if P in [n_ for t in au.assign_targets(st) for n_ in au.assigned_names(t)]]
+    nested = [st for st in au.stmts(lp.body) if P in [n_ for t in au.assign_targets(st) for n_ in au.assigned_names(t)]]
+    if len(incs) != 1 or len(nested) != 1:
+        return "the running offset is not advanced exactly once per element"
+    ii, ist = incs[0]
+    want = sym.to_poly(ast.parse(f"len({row.id})", mode="eval").body)
+    if isinstance(ist, ast.AugAssign) and isinstance(ist.op, ast.Add):
+        delta = sym.to_poly(ist.value)
+    elif isinstance(ist, ast.Assign):
+        delta = sym.to_poly(ist.value) - sym.Poly.atom(P)
+    else:
+        return "the running offset is not advanced by an addition"
+    if delta != want:
+        return f"the running offset is advanced by `{au.src(ist)}`, not by the number of corners of the element"
+    if ii < wi:
+        return "the offset is advanced before being written (the index of the next element is written)"
+    return None
+
+
+def geogram_arity_tables(ctx, repo, wfn, rfn, wblocks, names_written, tables, prov, b):
     mod = GEO
     rsite = ctx.site(mod, rfn)
-    tables = arity_tables(repo, rfn)
     ctx.require_count("C04-E1 geogram arity tables", len(tables), 2)
-    for kind, (names, default, node, table, extra) in sorted(tables.items()):
+    for kind, (names, default, node, table, extra, cont) in sorted(tables.items()):
         ctx.check(not extra and len(names) <= 1, "C04-E1", rsite,
                   f"geogram: the size table of {kind} is also filled while reading chunk {', '.join(extra or names[1:])}",
                   f"`{table}` must hold one entry per {kind[:-1]}, all taken from `{names[0] if names else '?'}`; an entry appended while "
@@ -1714,12 +1886,48 @@ def geogram_arity_tables(ctx, repo, wfn, rfn, wblocks, names_written):
                      f"importer table {table}: chunk names {names}, default {default}; exporter blocks {len(wbs)}")
             continue
         restricted = all(wb.guard_n == default for wb in wbs)
-        written = any(n_ in names_written for n_ in names)
-        ctx.check(written or restricted, "C04-E1", ctx.site(mod, wfn, wbs[0].write),
-                  f"geogram: {kind} of any size are written but the `{names[0]}` chunk giving their sizes is never written",
-                  f"without that chunk the importer assumes {default} vertices per {kind[:-1]}: a mesh with other "
-                  f"{kind} (quads / polygons, hexahedra / prisms) reloads as {default}-vertex {kind} cut out of the corner list",
-                  note=f"geogram: sizes of {kind} recoverable")
+        hit = [n_ for n_ in names if n_ in names_written]
+        if not hit:
+            ctx.check(restricted, "C04-E1", ctx.site(mod, wfn, wbs[0].write),
+                      f"geogram: {kind} of any size are written but the `{names[0]}` chunk giving their sizes is never written",
+                      f"without that chunk the importer assumes {default} vertices per {kind[:-1]}: a mesh with other "
+                      f"{kind} (quads / polygons, hexahedra / prisms) reloads as {default}-vertex {kind} cut out of the corner list",
+                      note=f"geogram: sizes of {kind} recoverable")
+            continue
+        name = hit[0]
+        c, lines = names_written[name]
+        site = ctx.site(mod, wfn, c)
+        # (i) written whenever the importer's default would be wrong
+        sizes_dom = [default, default + 1, default + 2]
+        cases = [[x] for x in sizes_dom] + [[x, y] for x in sizes_dom for y in sizes_dom]
+        bad_case, unknown = None, False
+        for test, pol in au.guards(c):
+            if not any(isinstance(x, ast.Call) and isinstance(x.func, ast.Name) and x.func.id in ("any", "all", "len", "max", "min", "set")
+                       and prov.mesh in au.names(x) for x in au.walk(test)) or \
+                    not any(isinstance(x, ast.Call) and isinstance(x.func, ast.Name) and x.func.id in ("any", "all") for x in au.walk(test)):
+                continue
+            for sizes in cases:
+                v = _eval_size_condition(test, prov, kind, sizes)
+                if v is None:
+                    unknown = True
+                    break
+                runs = bool(v) == pol
+                if any(x != default for x in sizes) and not runs and bad_case is None:
+                    bad_case = sizes
+        if unknown:
+            ctx.fail("C04-E1", site, f"geogram: condition under which the `{name}` chunk is written not understood", "")
+        else:
+            ctx.check(bad_case is None, "C04-E1", site,
+                      f"geogram: the `{name}` chunk is not written for every mesh whose {kind} do not all have {default} vertices",
+                      f"e.g. {kind} of sizes {bad_case}: the chunk is skipped and the importer assumes {default} vertices per "
+                      f"{kind[:-1]}", note=f"geogram: `{name}` written whenever some {kind[:-1]} has not {default} vertices")
+        # (ii) payload = index of the first corner of each element
+        err = _ptr_payload_ok(payload_after(c), b, prov, kind)
+        ctx.check(err is None, "C04-G1", site,
+                  f"geogram: the payload of chunk {name} is not the index of the first corner of each {kind[:-1]} "
+                  f"(0, then advanced by its number of corners after being written)",
+                  f"{err}; the importer takes size i = ptr[i+1] - ptr[i] and reads the corners of element i from ptr[i]",
+                  note=f"geogram: `{name}` payload is the running corner offset")
 
 
 def geogram_rows(ctx, repo, rfn, cfn, rblocks, fields):
@@ -1797,11 +2005,13 @@ def run_geogram(ctx, repo):
     ctx.require_count("C04-E1 geogram importer row blocks", len(rblocks), 4)
     roles, cont_param = g1_header_layout(ctx, repo, wfn, afn, fields, start, role_field)
     g1_import_stride(ctx, repo, iafn, role_field)
-    names_written, atts = geogram_chunks(ctx, repo, wfn, prov, b, special, start, tfold, fold_container)
+    tables = arity_tables(repo, rfn)
+    ptr_names = {n_: (kind, t[5]) for kind, t in tables.items() for n_ in t[0]}
+    names_written, atts = geogram_chunks(ctx, repo, wfn, prov, b, special, start, tfold, fold_container, ptr_names)
     quoted = bool(roles and cont_param and roles.get("param:" + cont_param, (0, False))[1])
     geogram_containers(ctx, repo, wfn, member_field, quoted, fold_container)
     geogram_counts(ctx, repo, wfn, rfn, b, prov.mesh, special, member_field, atts)
-    geogram_arity_tables(ctx, repo, wfn, rfn, wblocks, names_written)
+    geogram_arity_tables(ctx, repo, wfn, rfn, wblocks, names_written, tables, prov, b)
     geogram_rows(ctx, repo, rfn, cfn, rblocks, fields)
     ctx.require_count("C04-X1 geogram exporter preconditions", geogram_precondition(ctx, repo, wfn), 1)
     nb = b1_writer_offsets(ctx, fmt, mod, wfn, prov, b)
